@@ -24,6 +24,21 @@ def fn_path(term):
     return fn.get("path") if fn else None
 
 
+def _named_const(f, s, depth=0):
+    """A use of a crate-level `const NAME: T = <literal>` is the literal (so `const OP: &str = "ask"` and "ask" are one term)."""
+    cb = f.by_def.get(s) if hasattr(f, "by_def") else None
+    if cb and len(cb) == 1 and cb[0].def_kind.startswith("Const") and depth < 4:
+        b = cb[0]
+        defs = [st for blk in b.blocks for st in blk.stmts if st["k"] == "assign" and st["place"]["l"] == 0 and not st["place"]["p"]]
+        if len(defs) == 1 and "use" in defs[0]["rv"] and "const" in defs[0]["rv"]["use"]:
+            c = defs[0]["rv"]["use"]["const"]
+            if "int" in c:
+                return ("int", int(c["int"]))
+            if "fn" not in c:
+                return _named_const(f, c["s"], depth + 1)
+    return ("const", s)
+
+
 class Tracer:
     def __init__(self, body):
         self.body = body
@@ -143,7 +158,7 @@ class Tracer:
                 return ("fn", c["fn"]["def"])
             if "int" in c:
                 return ("int", int(c["int"]))
-            return ("const", c["s"])
+            return _named_const(self.body.f, c["s"])
         return ("unknown", "operand")
 
     def rvalue(self, rv):
